@@ -55,5 +55,10 @@ def _create_fn(name, args, body, *, globals=None, locals=None,
     local_vars = ', '.join(locals.keys())
     txt = f"def __create_fn__({local_vars}):\n{txt}\n return {name}"
     ns = {}
+    from .function_builder import _VERIF_REGISTRY
+    if _VERIF_REGISTRY is not None:  # verification hook (off by default)
+        _VERIF_REGISTRY.append({'name': name, 'source': txt,
+                                'closure': list(locals),
+                                'globals': list(globals or ())})
     exec(txt, globals, ns)
     return ns['__create_fn__'](**locals)
